@@ -541,7 +541,7 @@ func twoTunnels(x *explore.X, depth int) {
 
 func TestC03(t *testing.T) {
 	s := explore.NewSuite(t, "C03", "model_checking",
-		"routing(6: direct, upstream http, upstream https, upstream socks5, custom connect function, HTTP/1.1 Upgrade) [full product] x client script and target script (1-2 quick / 1-3 thorough segments of sizes {5,0,1,4096,32768,32769,1MiB+1}, first segment optionally coalesced with the request head resp. with the far side's own reply) x tunnel left idle for two virtual minutes before the script {no, yes} [deviation-bounded, D=2 quick / 3 thorough] x ALL interleavings of the two scripts' events (segment, ..., FIN) [full]; a back-pressure family in which one endpoint stops reading (4 KiB socket buffer) and resumes at every possible point of the interleaving, the opposite direction being checked exactly meanwhile; a state is a quiescent event history; at every state both directions are compared byte for byte, EOF visibility is compared with the sender's FIN, and socket release with 'both directions finished'; (two-tunnels) two tunnels open at once on one proxy (direct / through one upstream HTTP proxy), EVERY sequence of 3 (quick) / 4 (thorough) events out of {5- or 40000-byte segment in any of the four directions, one target stops reading / resumes}, all four byte streams compared exactly after every event; non-trivial = at least one state was checked")
+		"routing(6: direct, upstream http, upstream https, upstream socks5, custom connect function, HTTP/1.1 Upgrade) [full product] x client script and target script (1-2 quick / 1-3 thorough segments of sizes {5,0,1,4096,32768,32769,1MiB+1}, first segment optionally coalesced with the request head resp. with the far side's own reply) x tunnel left idle for two virtual minutes before the script {no, yes} [deviation-bounded, D=2 quick / 3 thorough] x ALL interleavings of the two scripts' events (segment, ..., FIN) [full]; a back-pressure family in which one endpoint stops reading (4 KiB socket buffer) and resumes at every possible point of the interleaving, the opposite direction being checked exactly meanwhile; a state is a quiescent event history; at every state both directions are compared byte for byte, EOF visibility is compared with the sender's FIN, and socket release with 'both directions finished'; (two-tunnels) two tunnels open at once on one proxy (direct / through one upstream HTTP proxy), EVERY sequence of 3 (quick) / 4 (thorough) events out of {5- or 40000-byte segment in any of the four directions, one target stops reading / resumes}, all four byte streams compared exactly after every event; non-trivial = at least one state was checked; (loopback-sockets, round 9) the same proxy on REAL TCP sockets of the loopback interface: which side finishes first(2) x upload {5, 40000, 512 KiB} x download {0, 5, 512 KiB} x slow receiver {none, target, client: 16 KiB receive buffer, reads only after the other side has finished} [full product, 54 scripts]: every endpoint reads exactly the octets sent and then end-of-stream, never a reset; real time is a liveness guard only (an execution that exceeds it is inconclusive, not a violation)")
 	s.Assume = []string{"simnet models TCP half-close (FIN) and release", "virtual time is not advanced inside a tunnel, so the 60 s forced-close grace period of bicopy never expires (not part of the statement)", "crypto/tls close_notify is the half-close of the HTTPS-proxy routing"}
 	for _, tier := range []string{"quick", "thorough"} {
 		segs := map[string]int{"quick": 2, "thorough": 3}[tier]
